@@ -2,9 +2,9 @@
 // deterministic interleavings: the protected handler blocks on a channel, so every request is
 // "inside the handler" from its `start` line until its `finish` line.
 //
-//	cfg max=<int> [ext=custom|builtin] [slowreject=1] [verbose=0|1] [log=0|1] [hvar=<name>] [hsend=<name>]
-//	start <id> <src> [amt=<int>] [err=1]  -> admitted | 429 | rejecting | err <status> | status <n> | dup
-//	finish <id> normal|panic              -> released | rejected-done | unknown
+//	cfg max=<int> [ext=custom|builtin|clientip] [slowreject=1] [verbose=0|1] [log=0|1] [hvar=<name>] [hsend=<name>]
+//	start <id> <src> [amt=<int>] [err=1] [port=<n>]  -> admitted | 429 | rejecting | err <status> | status <n> | dup
+//	finish <id> normal|panic|panic-err|panic-abort|panic-rt  -> released | rejected-done | unknown
 //	pstart <n> <src> <prefix>             -> admitted=<a> rejected=<r> | admitted=<a> rejecting=<r> | dup
 //	inflight <src>                        -> <n>   requests of <src> observed inside the handler
 //
@@ -22,6 +22,10 @@
 // ext=builtin: utils.NewExtractor("request.header."+hvar) — amount is always 1, never an error; the
 // client's source label travels in the header hsend, added with Header.Set as a server's header
 // reader would store it (hvar, hsend default X-Src; any spelling of the same name must do).
+// ext=clientip: utils.NewExtractor("client.ip"); <src> is the peer's IP text and the request's
+// RemoteAddr is net.JoinHostPort(src, port) (port default 1234; 40000+i for the i-th arrival of a burst).
+// panic-err / panic-abort / panic-rt: the handler panics with an error value, with
+// http.ErrAbortHandler (what httputil.ReverseProxy uses on a mid-body abort), with a runtime error.
 // verbose / log: connlimit's Verbose and Logger options (a counting logger); they must not change
 // any answer.  Every exported option of connlimit (Logger, Verbose, ErrorHandler) is reachable here.
 package main
@@ -29,10 +33,12 @@ package main
 import (
 	"errors"
 	"fmt"
+	"net"
 	"net/http"
 	"net/http/httptest"
 	"runtime"
 	"strconv"
+	"strings"
 	"sync"
 	"sync/atomic"
 
@@ -67,16 +73,17 @@ func (b *burst) wait() {
 }
 
 type h struct {
-	cl      *connlimit.ConnLimiter
-	builtin bool
-	mu      sync.Mutex
-	reqs    map[string]*req // by key (id, or a synthetic key for err=1 requests)
-	inside  map[string]int  // per source: requests currently inside the protected handler
-	bursts  map[string]*burst
-	slow    bool
-	hsend   string
-	logged  int64
-	seq     int
+	cl       *connlimit.ConnLimiter
+	builtin  bool
+	mu       sync.Mutex
+	reqs     map[string]*req // by key (id, or a synthetic key for err=1 requests)
+	inside   map[string]int  // per source: requests currently inside the protected handler
+	bursts   map[string]*burst
+	slow     bool
+	hsend    string
+	clientip bool
+	logged   int64
+	seq      int
 }
 
 // countLog is the utils.Logger of log=1.
@@ -113,19 +120,31 @@ func (s *h) protected(w http.ResponseWriter, r *http.Request) {
 	s.mu.Lock()
 	s.inside[rq.src]--
 	s.mu.Unlock()
+	switch mode {
+	case "panic-err":
+		panic(errors.New("boom " + key))
+	case "panic-abort":
+		panic(http.ErrAbortHandler)
+	case "panic-rt":
+		var m map[string]int
+		m[key] = 1 // runtime error: assignment to entry in nil map
+	}
 	if mode == "panic" {
 		panic("boom " + key)
 	}
 	w.WriteHeader(http.StatusOK)
 }
 
-func (s *h) launch(key, src, amt string, fail bool, b *burst) *req {
+func (s *h) launch(key, src, amt, port string, fail bool, b *burst) *req {
 	rq := &req{src: src, entered: make(chan struct{}), release: make(chan string, 1), done: make(chan int, 1),
 		rejecting: make(chan struct{}), rejRelease: make(chan struct{})}
 	s.mu.Lock()
 	s.reqs[key] = rq
 	s.mu.Unlock()
 	r := httptest.NewRequest(http.MethodGet, "http://h/", nil)
+	if s.clientip {
+		r.RemoteAddr = net.JoinHostPort(src, port)
+	}
 	r.Header.Set("X-Key", key)
 	r.Header.Set("X-Src", src)
 	if s.builtin {
@@ -181,7 +200,7 @@ func (s *h) pstart(n int, src, prefix string) string {
 	rqs := make([]*req, n)
 	for i := 0; i < n; i++ {
 		keys[i] = fmt.Sprintf("%s#burst%d#%d", prefix, s.seq, i)
-		rqs[i] = s.launch(keys[i], src, "1", false, b)
+		rqs[i] = s.launch(keys[i], src, "1", strconv.Itoa(40000+i), false, b)
 	}
 	var adm, parked []*req
 	rejected, other := 0, 0
@@ -228,10 +247,17 @@ func (s *h) Op(f []string) string {
 	switch {
 	case f[0] == "start" && len(f) >= 3 && len(f) <= 5:
 		id, src, opts := f[1], f[2], f[3:]
-		amt, fail := "1", false
+		amt, port, fail := "1", "1234", false
 		for _, o := range opts {
 			if o == "err=1" {
 				fail = true
+			} else if v, ok := hx.KV([]string{o}, "port"); ok {
+				if !s.clientip || strings.Trim(v, "0123456789") != "" {
+					return "bad-op"
+				}
+				port = v
+			} else if s.clientip {
+				return "bad-op"
 			} else if v, ok := hx.KV([]string{o}, "amt"); ok {
 				if _, err := strconv.ParseInt(v, 10, 64); err != nil {
 					return "bad-op"
@@ -241,7 +267,7 @@ func (s *h) Op(f []string) string {
 				return "bad-op"
 			}
 		}
-		if s.builtin && len(opts) > 0 {
+		if s.builtin && !s.clientip && len(opts) > 0 {
 			return "bad-op"
 		}
 		key := id
@@ -256,7 +282,7 @@ func (s *h) Op(f []string) string {
 				return "dup"
 			}
 		}
-		rq := s.launch(key, src, amt, fail, nil)
+		rq := s.launch(key, src, amt, port, fail, nil)
 		select {
 		case <-rq.rejecting:
 			rq.parked = true
@@ -280,7 +306,7 @@ func (s *h) Op(f []string) string {
 			}
 			return fmt.Sprintf("status %d", code)
 		}
-	case f[0] == "finish" && len(f) == 3 && (f[2] == "normal" || f[2] == "panic"):
+	case f[0] == "finish" && len(f) == 3 && (f[2] == "normal" || f[2] == "panic" || f[2] == "panic-err" || f[2] == "panic-abort" || f[2] == "panic-rt"):
 		s.mu.Lock()
 		rq := s.reqs[f[1]]
 		s.mu.Unlock()
@@ -299,7 +325,7 @@ func (s *h) Op(f []string) string {
 		rq.release <- f[2]
 		code := <-rq.done
 		s.drop(f[1])
-		if (f[2] == "panic") != (code == -1) {
+		if (f[2] != "normal") != (code == -1) {
 			return fmt.Sprintf("released-unexpected %d", code)
 		}
 		return "released"
@@ -376,6 +402,13 @@ func main() {
 				return nil, "err " + err.Error()
 			}
 			ext, s.builtin = e, true
+		}
+		if v, _ := hx.KV(cfg, "ext"); v == "clientip" {
+			e, err := utils.NewExtractor("client.ip")
+			if err != nil {
+				return nil, "err " + err.Error()
+			}
+			ext, s.builtin, s.clientip = e, true, true
 		}
 		var opts []connlimit.Option
 		if v, _ := hx.KV(cfg, "log"); v == "1" {
